@@ -160,6 +160,25 @@ func c28TalkX(addr string, xbase uint32) (stage string, err error) {
 	if err != nil || g.Status != nfsx.OK || g.Attr.Type != nfsx.TypeDir {
 		return "GETATTR", fmt.Errorf("GETATTR of the mounted handle: %+v, %v", g, err)
 	}
+	// Two calls written back to back in one segment (clients pipeline): both are answered, in order.
+	{
+		x1, x2 := xbase+15, xbase+16
+		both := append(nfsx.Frame(nfsx.Call(x1, nfsx.ProgNFS, 3, 0, cred, nfsx.AuthNone(), nil)), nfsx.Frame(nfsx.Call(x2, nfsx.ProgNFS, 3, nfsx.ProcGetattr, cred, nfsx.AuthNone(), nfsx.ArgsFh(m.Fh)))...)
+		cl.C.SetDeadline(time.Now().Add(8 * time.Second))
+		if _, err := cl.C.Write(both); err != nil {
+			return "two pipelined calls", err
+		}
+		for _, x := range []uint32{x1, x2} {
+			rec, err := nfsx.ReadRecord(cl.C, 1<<20)
+			if err != nil {
+				return "two pipelined calls", fmt.Errorf("reply to xid %d of two calls sent in one write: %v", x, err)
+			}
+			if rp2, err := nfsx.ParseReply(rec); err != nil || rp2.Xid != x || rp2.Stat != nfsx.MsgAccepted || rp2.AcceptStat != nfsx.AcceptSuccess {
+				return "two pipelined calls", fmt.Errorf("reply to xid %d: %+v, %v", x, rp2, err)
+			}
+		}
+		cl.C.SetDeadline(time.Time{})
+	}
 	// Another conformant client comes and goes on a connection of its own (MNT /, UMNT /); the first client's mount
 	// is its own: GETATTR of the handle it was given is answered as before.
 	other, err := drv.Dial(addr, 8*time.Second)
